@@ -568,12 +568,17 @@ func init() {
 			return nil, false
 		}
 		elemT := c.sig.Params().At(0).Type().Underlying().(*types.Slice).Elem()
-		r := c.st.SliceElem(sl, IntLit(0), elemT)
-		r.Sort = SBytes
-		for i := 1; i < n; i++ {
-			e := c.st.SliceElem(sl, IntLit(int64(i)), elemT)
+		part := func(i int) T {
+			e, ok := c.st.resolvedSliceElem(sl, i, elemT)
+			if !ok {
+				e = c.st.SliceElem(sl, IntLit(int64(i)), elemT)
+			}
 			e.Sort = SBytes
-			r = Cat(r, e)
+			return e
+		}
+		r := part(n - 1)
+		for i := n - 2; i >= 0; i-- {
+			r = Cat(part(i), r)
 		}
 		return WithGo(c.st.Name("appended", r), c.sig.Results().At(0).Type()), true
 	}
